@@ -1,6 +1,7 @@
 package main
 
 import (
+	"time"
 	"bytes"
 	"crypto/md5"
 	"encoding/json"
@@ -443,6 +444,7 @@ func genC07(r *Rng, immediate bool) c07Case {
 }
 
 func checkC07(rep *Report, rng *Rng, tier string) {
+	c07Start := time.Now()
 	n := 120
 	if tier == "thorough" {
 		n = 600
@@ -569,6 +571,7 @@ func checkC07(rep *Report, rng *Rng, tier string) {
 			break
 		}
 	}
+	rep.Extra["seconds_modes_A_B"] = int(time.Since(c07Start).Seconds())
 	// mode C: every WriteAt call of chosen Flush calls made to fail (torn at 0, 1, len/2, len-1), retried or not,
 	// also twice in a row; the whole run -- every answer and the bytes of the file after every failed or completed
 	// Flush, FlushRevert and re-open -- is compared with the byte-level fault model (DiskFault.flush_fault)
@@ -617,6 +620,7 @@ func checkC07(rep *Report, rng *Rng, tier string) {
 			}
 		}
 	}
+	rep.Extra["seconds_until_end_of_mode_C"] = int(time.Since(c07Start).Seconds())
 	// mode D: a key-only lookup right after a re-open (nothing cached) with every one of its ReadAt calls made to fail
 	// in turn, then retried: the calls of the failed attempt and of the retry are compared with LazyFault.get_fault_reads
 	nD := 6
